@@ -15,13 +15,15 @@ Proved here for all inputs:
 * `alloc_incomplete_without_WF` the excluded point (a pack listing a channel format twice);
 * `select_conflicting_iff_none_valid`, `select_accepted_unique`, `accept_iff_unique_partial`.
 
-NOT proved (searched by the harness against two brute-force enumerators instead):
-`alloc_nodup` (no two yielded solutions are `≈`), hence the direction "Ambiguous ⇒ two
-non-equivalent valid allocations" of `accept_iff_unique`.
+* `alloc_nodup`               for well-formed problems no two yielded solutions are `≈`;
+* `alloc_dup_same_pack_twice`, `alloc_dup_same_track_twice` the excluded points of `alloc_nodup`;
+* `accept_iff_unique`         accepted ⇔ exactly one `≈`-class of valid allocations,
+                              Conflicting ⇔ none, Ambiguous ⇔ at least two inequivalent ones.
 -/
 import Earverif.Model.PackAlloc
 import Earverif.Proofs.C07Sound
 import Earverif.Proofs.C07Complete
+import Earverif.Proofs.C07Nodup
 
 namespace Earverif.PackAlloc
 open List
@@ -260,11 +262,7 @@ theorem select_accepted_unique (prob : Problem) (hwf : WF prob) (s : Sol)
     exact he
   · cases h
 
-/-- `accept_iff_unique`, the part that is proved: a problem with two valid allocations
-that are not `≈` is never accepted and never "Conflicting", i.e. it is diagnosed
-"Ambiguous".  NOT proved: the converse (that "Ambiguous" implies two non-equivalent valid
-allocations) — it needs `alloc_nodup` (no two yielded solutions are `≈`), which is only
-searched by the harness. -/
+/-- Two inequivalent valid allocations ⇒ "Ambiguous" (needs only completeness). -/
 theorem accept_iff_unique_partial (prob : Problem) (hwf : WF prob) (s1 s2 : Sol)
     (h1 : Valid prob s1) (h2 : Valid prob s2) (hne : ¬ SolEquiv s1 s2) :
     selectPackMapping prob = .ambiguous := by
@@ -275,6 +273,97 @@ theorem accept_iff_unique_partial (prob : Problem) (hwf : WF prob) (s1 s2 : Sol)
   | accepted s =>
     obtain ⟨_, hu⟩ := select_accepted_unique prob hwf s hsel
     exact absurd ((hu s1 h1).symm.trans (hu s2 h2)) hne
+
+/-! ## No duplicates -/
+
+/-- **C07 (no duplicates).** For a well-formed problem no two yielded solutions are `≈`:
+the branches of the search are disjoint and the silent-track rules (`obvious` filling,
+first gap, `packs[pack_i:]`) keep one representative per class.  (Of `WF` only
+`packs_nodup` and `tracks_nodup` are used: distinct `AllocationPack` objects, distinct
+`AllocationTrack` objects.) -/
+theorem alloc_nodup (prob : Problem) (hwf : WF prob) :
+    (allocatePacks prob).Pairwise (fun a b => ¬ SolEquiv a b) := by
+  unfold allocatePacks SolEquiv
+  apply allocImpl_nodup prob.packs
+  refine ⟨fun _ hp => hp, (fun _ ha => by cases ha), hwf.packs_nodup, ?_,
+    silentLast_tracksIncSilent prob, Or.inr (fun _ ha => by cases ha)⟩
+  rw [filled_nil, nil_append, tracksIncSilent_realTracks]
+  exact hwf.tracks_nodup
+
+/-- The two identity hypotheses cannot be dropped (what happens in the model — and, as
+the harness records, in the real code — when the same object is listed twice). -/
+theorem alloc_dup_same_pack_twice :
+    let p : Pack := ⟨0, 10, [⟨1, [10]⟩]⟩
+    let prob : Problem := ⟨[p, p], [], none, 1⟩
+    ¬ WF prob ∧ allocatePacks prob = [[⟨p, [(⟨1, [10]⟩, some none)]⟩], [⟨p, [(⟨1, [10]⟩, some none)]⟩]] := by
+  decide
+
+theorem alloc_dup_same_track_twice :
+    let t : Track := ⟨0, 1, 10⟩
+    let prob : Problem := ⟨[⟨0, 10, [⟨1, [10]⟩]⟩, ⟨1, 10, [⟨1, [10]⟩]⟩], [t, t], none, 0⟩
+    ¬ WF prob ∧ ¬ (allocatePacks prob).Pairwise (fun a b => ¬ SolEquiv a b) := by
+  decide
+
+/-! ## `accept_iff_unique` -/
+
+theorem pairwise_not_perm_le_one {l : List Sol} (hp : l.Pairwise (fun a b => ¬ SolEquiv a b))
+    (s : Sol) (hall : ∀ x ∈ l, SolEquiv s x) : l.length ≤ 1 := by
+  match l, hp, hall with
+  | [], _, _ => simp
+  | [_], _, _ => simp
+  | a :: b :: tl, hp, hall =>
+    exfalso
+    have := (pairwise_cons.1 hp).1 b (by simp)
+    exact this ((hall a (by simp)).symm.trans (hall b (by simp)))
+
+/-- "Ambiguous" ⇔ at least two inequivalent allocations satisfy the requirements. -/
+theorem select_ambiguous_iff_two_valid (prob : Problem) (hwf : WF prob) :
+    selectPackMapping prob = .ambiguous ↔
+      ∃ s1 s2, Valid prob s1 ∧ Valid prob s2 ∧ ¬ SolEquiv s1 s2 := by
+  constructor
+  · intro h
+    have hnd := alloc_nodup prob hwf
+    unfold selectPackMapping at h
+    split at h
+    · cases h
+    · cases h
+    · rename_i a b tl hl
+      rw [hl] at hnd
+      refine ⟨a, b, alloc_sound prob a (by rw [hl]; simp), alloc_sound prob b (by rw [hl]; simp), ?_⟩
+      exact (pairwise_cons.1 hnd).1 b (by simp)
+  · rintro ⟨s1, s2, h1, h2, hne⟩
+    exact accept_iff_unique_partial prob hwf s1 s2 h1 h2 hne
+
+/-- Accepted ⇔ exactly one `≈`-class of allocations satisfies the requirements. -/
+theorem select_accepted_iff_unique_valid (prob : Problem) (hwf : WF prob) :
+    (∃ s, selectPackMapping prob = .accepted s) ↔
+      ∃ s, Valid prob s ∧ ∀ sol, Valid prob sol → SolEquiv s sol := by
+  constructor
+  · rintro ⟨s, h⟩
+    exact ⟨s, select_accepted_unique prob hwf s h⟩
+  · rintro ⟨s, hv, hu⟩
+    have hall : ∀ x ∈ allocatePacks prob, SolEquiv s x :=
+      fun x hx => hu x (alloc_sound prob x hx)
+    have hlen := pairwise_not_perm_le_one (alloc_nodup prob hwf) s hall
+    obtain ⟨s', hs', _⟩ := alloc_complete prob s hwf hv
+    unfold selectPackMapping
+    match hl : allocatePacks prob with
+    | [] => rw [hl] at hs'; cases hs'
+    | [x] => exact ⟨x, rfl⟩
+    | _ :: _ :: _ => rw [hl] at hlen; simp at hlen
+
+/-- **C07 (`accept_iff_unique`).** For a well-formed problem `select_pack_mapping`
+accepts exactly when one `≈`-class of allocations meets the requirements, reports
+"Conflicting" exactly when none does, and "Ambiguous" exactly when at least two
+inequivalent ones do. -/
+theorem accept_iff_unique (prob : Problem) (hwf : WF prob) :
+    ((∃ s, selectPackMapping prob = .accepted s) ↔
+      ∃ s, Valid prob s ∧ ∀ sol, Valid prob sol → SolEquiv s sol) ∧
+    (selectPackMapping prob = .conflicting ↔ ¬ ∃ sol, Valid prob sol) ∧
+    (selectPackMapping prob = .ambiguous ↔
+      ∃ s1 s2, Valid prob s1 ∧ Valid prob s2 ∧ ¬ SolEquiv s1 s2) :=
+  ⟨select_accepted_iff_unique_valid prob hwf, select_conflicting_iff_none_valid prob hwf,
+    select_ambiguous_iff_two_valid prob hwf⟩
 
 /-! ## Non-vacuity
 
